@@ -15,6 +15,8 @@ for try in 1 2 3 4 5; do git -C /repo worktree add --detach $WT HEAD -q && break
 ( cd $WT && meson setup _build >/dev/null 2>&1 && meson compile -C _build >/dev/null 2>&1 ) || echo "clean build FAILED" >> $OUT
 ( cd $D && RUN=$N ./run_demo.sh $WT $DEMO >/tmp/seed_clean_$ID$N.log 2>&1 ); echo "demo on clean tree: exit $?" >> $OUT
 git -C $WT apply "$P" 2>>$OUT || { echo "patch does not apply" >> $OUT; exit 2; }
+# the meson target that generates the compiled-in tables does not list data/*.dat as inputs: force its regeneration for data changes
+grep -q '^+++ b/data/' "$P" && rm -f $WT/_build/src/xrayglob_inline.c $WT/_build/src/prdata* 2>/dev/null
 ( cd $WT && meson compile -C _build >/dev/null 2>&1 ) || echo "build with patch FAILED" >> $OUT
 ( cd $WT && meson test -C _build 2>&1 | grep -E "^Ok|^Fail" | tr -s ' ' | tr '\n' ' ' ) >> $OUT; echo >> $OUT
 ( cd $D && RUN=$N ./run_demo.sh $WT $DEMO >/tmp/seed_mut_$ID$N.log 2>&1 ); echo "demo on changed tree: exit $? ($(tail -1 /tmp/seed_mut_$ID$N.log | cut -c1-150))" >> $OUT
